@@ -10,8 +10,11 @@ Section Types.
   Record Interval := mk_Interval { Interval_min : num; Interval_max : num }.
   Record AngleInterval := mk_AngleInterval { AngleInterval_start : num; AngleInterval_angle : num }.
   Record Tolerance := mk_Tolerance { Tolerance_lower : num; Tolerance_upper : num }.
+  (* geom3/plane3.rs (translator output only; the hand-written model's record is Model.Frames.plane) *)
+  Record Plane3 := mk_Plane3 { Plane3_normal : (num * num * num)%type; Plane3_d : num }.
 End Types.
 (* field lists, compared with the ones the translator reads from the Rust source *)
+Definition fields_Plane3 := ("normal" :: "d" :: nil)%list.
 Definition fields_Interval := ("min" :: "max" :: nil)%list.
 Definition fields_AngleInterval := ("start" :: "angle" :: nil)%list.
 Definition fields_AngleDir := ("Cw" :: "Ccw" :: nil)%list.
